@@ -149,7 +149,9 @@ def run(rec, tier, seed):
                 rec.case(('bond', a1, a2, bo), group='bond', sample={'bond': [a1, a2, bo]} if len(rec.samples) < 1 else None)
                 for m in ms:
                     rec.fail('uff', 'bond_params', m, {'fn': 'bond', 'a': [a1, a2], 'bo': bo}, 'C18/bond_params/post')
-    rules_sets = [[({'N_1'}, 2), ({'N_1', 'N_2'}, 2)], [({'C_R', 'O_2'}, 1.5)], [({'C_3', 'C_3'}, 3)]]
+    # (the third list names one pair twice with different orders: the first rule that matches is the one that counts)
+    rules_sets = [[({'N_1'}, 2), ({'N_1', 'N_2'}, 2)], [({'C_R', 'O_2'}, 1.5)], [({'C_3', 'C_3'}, 3)],
+                  [({'C_R', 'N_2'}, 1.41), ({'C_3', 'O_2'}, 0.5), ({'N_2', 'C_R'}, 1.5), ({'C_R'}, 1.2), ({'C_R', 'C_R'}, 1.7)]]
     probe = ['N_1', 'N_2', 'C_R', 'O_2', 'C_3', 'H_', 'Zr3+4', 'O_3_z', 'Cu3+1']
     for rules in rules_sets:
         for a1 in probe:
